@@ -93,6 +93,17 @@ package authboss
 //@
 //@ spec lists_distinct(c) := len(c.sessionStateEvents) == 0 || len(c.cookieStateEvents) == 0 || c.sessionStateEvents != c.cookieStateEvents
 //@
+//@ func (*Authboss).NewResponse
+//@   property C11
+//@   -- a new writer wraps w, talks to the two configured stores, has flushed nothing and starts
+//@   -- with two EMPTY NIL event lists (so that the two lists never share a backing array - the
+//@   -- precondition lists_distinct of the flush - and nothing is queued that no handler queued)
+//@   let nw = deref(result)
+//@   ensures fresh_writer: nw.ResponseWriter == w && nw.sessionStateRW == a.Config.Storage.SessionState &&
+//@       nw.cookieStateRW == a.Config.Storage.CookieState && nw.hasWritten == false &&
+//@       nw.sessionState == nil && nw.cookieState == nil &&
+//@       len(nw.sessionStateEvents) == 0 && len(nw.cookieStateEvents) == 0 && nw.sessionStateEvents == nil && nw.cookieStateEvents == nil
+//@
 //@ func (ClientStateResponseWriter).Header
 //@   property C11
 //@   -- the header map of the wrapped writer: reading or filling it releases nothing
